@@ -70,7 +70,7 @@ func kindConfusion(proof, honest []byte) bool {
 func TestMain(m *testing.M) {
 	ev.SetMeta(ev.Meta{
 		Property: "C10", Level: "exploration",
-		Rule: "rapid draws a trie content (1..10 keys over prefix-sharing 32-byte keys; in memory or committed at a drawn collapse level), a block number in 1..total, and a tamper script of 1..3 edits applied to the decoded honest proof: scale a branch's child weights, swap two sibling blobs, replace a child hash, edit an embedded short child's key/value hash, substitute a proof element by an element of another proof of the same trie or of another trie, drop/duplicate/reorder elements, change claimed Hash fields, change value bytes or weight in the leaf, ask for a different block, raw bit flips (and, unless listed as a known finding, move weight between children of a branch keeping the sum). " +
+		Rule: "rapid draws a trie content (1..10 keys over prefix-sharing 32-byte keys; in memory or committed at a drawn collapse level), a block number in 1..total, and a tamper script of 1..3 edits applied to the decoded honest proof: scale a branch's child weights, swap two sibling blobs, replace a child hash, edit an embedded short child's key/value hash, substitute a proof element by an element of another proof of the same trie or of another trie, drop/duplicate/reorder elements, insert an element of another proof (mostly appended after the last element), change claimed Hash fields, change value bytes or weight in the leaf, ask for a different block, raw bit flips (and, unless listed as a known finding, move weight between children of a branch keeping the sum). " +
 			"Oracle: the honest proof verifies in a fresh trie to (trusted root, owner's value); for ANY submitted bytes, if VerifyBlockProof returns no error and the returned hash equals the trusted root, the returned value must be the value of the true owner of the block asked for. Errors and other hashes are fine; panics are failures. " +
 			"Non-trivial = the tampered proof differs from the honest one, still decodes as CBOR with decodable nodes, and reaches the verifier's hash/weight logic (not rejected at the first decode); distinct = distinct (content, block, tampered bytes).",
 		Assumptions: []string{"the trusted root is the independent reference root of the content", "sha3 collision resistance"},
@@ -258,7 +258,7 @@ func tamper(rt *rapid.T, nodes *[]*wmpt.PersistNodeBase, other []*wmpt.PersistNo
 			branches = append(branches, i)
 		}
 	}
-	kinds := []string{"scale-weights", "swap-siblings", "replace-child-hash", "edit-embedded-short", "substitute-element", "drop", "duplicate", "reorder", "claimed-hash", "leaf-value", "leaf-weight", "short-key", "short-child-ref"}
+	kinds := []string{"scale-weights", "swap-siblings", "replace-child-hash", "edit-embedded-short", "substitute-element", "insert-foreign-element", "insert-foreign-element", "drop", "duplicate", "reorder", "claimed-hash", "leaf-value", "leaf-weight", "short-key", "short-child-ref"}
 	if allowReweight {
 		kinds = append(kinds, "reweight-keep-sum", "reweight-keep-sum")
 	}
@@ -363,6 +363,20 @@ func tamper(rt *rapid.T, nodes *[]*wmpt.PersistNodeBase, other []*wmpt.PersistNo
 			return ""
 		}
 		ns[gen.Uniform(rt, 0, len(ns)-1, label+"at")] = other[gen.Uniform(rt, 0, len(other)-1, label+"from")]
+	case "insert-foreign-element":
+		// an element of another proof is added - mostly at the very end (after everything the descent consumes), else anywhere
+		if len(other) == 0 {
+			return ""
+		}
+		el := other[gen.Uniform(rt, 0, len(other)-1, label+"from")]
+		if gen.Chance(rt, 60, label+"lastfrom") {
+			el = other[len(other)-1] // the other proof's value record
+		}
+		at := len(ns)
+		if gen.Chance(rt, 35, label+"anywhere") {
+			at = gen.Uniform(rt, 0, len(ns), label+"at")
+		}
+		*nodes = append(append(append([]*wmpt.PersistNodeBase{}, ns[:at]...), el), ns[at:]...)
 	case "drop":
 		i := gen.Uniform(rt, 0, len(ns)-1, label+"at")
 		*nodes = append(append([]*wmpt.PersistNodeBase{}, ns[:i]...), ns[i+1:]...)
